@@ -308,6 +308,69 @@ func c13Stress(tier string, seed uint64, out string) {
 		wg.Wait()
 		sum.Kinds["cold-start"] += 16
 	}
+	// one query whose two UNION operands (inside a derived table) both read the same not-yet-evaluated CTE of the
+	// enclosing query over a 600-row table: whatever the engine runs concurrently inside ONE query must not race
+	{
+		big := make([]any, 600)
+		for i := range big {
+			big[i] = map[string]any{"id": float64(i), "v": float64(i % 9)}
+		}
+		doc := map[string]any{"big": big}
+		for i := 0; i < 12; i++ {
+			res := runEngine(doc, "WITH c AS (SELECT id, v FROM big WHERE v >= 0) SELECT * FROM (SELECT id FROM c UNION ALL SELECT id FROM c WHERE v < 5) AS d")
+			if res.Class != "ok" || len(res.Rows) != 600+335 {
+				fmt.Fprintf(os.Stderr, "C13-CROSSTALK: nested UNION over an enclosing CTE: class=%s rows=%d err=%s (want ok, %d rows)\n", res.Class, len(res.Rows), res.Err, 600+335)
+				sum.Mismatches = append(sum.Mismatches, c13Mismatch{Round: -1, Job: c13Job{Kind: "query", Text: "nested UNION over an enclosing CTE", Tag: "union-operands-share-cte"}})
+				break
+			}
+		}
+		sum.Kinds["union-operands-share-cte"] += 12
+	}
+	// a flood of distinct selector texts (more than 2^16) from one goroutine while others keep evaluating selectors
+	// they have used before on their own documents: a bounded / recycled cache must not disturb them
+	{
+		var stop int32
+		var wg sync.WaitGroup
+		bad := make(chan string, 8)
+		for g := 0; g < 4; g++ {
+			wg.Add(1)
+			go func(g int) {
+				defer wg.Done()
+				doc := map[string]any{"users": []any{map[string]any{"id": float64(g), "name": fmt.Sprintf("u%d", g)}}, "x": float64(g)}
+				for atomic.LoadInt32(&stop) == 0 {
+					v, err := genql.ExecReader(doc, "users[0].name")
+					if err != nil || v != fmt.Sprintf("u%d", g) {
+						select {
+						case bad <- fmt.Sprintf("users[0].name on a private document returned %v, %v", v, err):
+						default:
+						}
+						return
+					}
+					w, err := genql.ExecReader(doc, fmt.Sprintf("nokey%d_%d", g, seed))
+					if err != nil || w != nil {
+						select {
+						case bad <- fmt.Sprintf("a missing key returned %v, %v (want NULL)", w, err):
+						default:
+						}
+						return
+					}
+				}
+			}(g)
+		}
+		fd := map[string]any{"x": float64(3)}
+		for i := 0; i < 70000; i++ {
+			genql.ExecReader(fd, fmt.Sprintf("fresh_%d_%d", seed, i))
+		}
+		atomic.StoreInt32(&stop, 1)
+		wg.Wait()
+		select {
+		case msg := <-bad:
+			fmt.Fprintf(os.Stderr, "C13-CROSSTALK: selector flood: %s\n", msg)
+			sum.Mismatches = append(sum.Mismatches, c13Mismatch{Round: -2, Job: c13Job{Kind: "reader", Text: "70000 fresh selector texts next to cached ones", Tag: "selector-flood"}})
+		default:
+		}
+		sum.Kinds["selector-flood"] += 70000
+	}
 	gs := []int{2, 3, 4, 8, 16, 32}
 	for round := 0; time.Since(start).Seconds() < secs; round++ {
 		G := gs[round%len(gs)]
